@@ -68,6 +68,17 @@ impl Zip {
         })
     }
 
+    // raw_copy_file() copies as many bytes as it can get. If the data of a member does
+    // not lie within the file, we would write an archive that is silently corrupted.
+    fn check_member_data(file: &zip::read::ZipFile, input_len: u64) -> Result<()> {
+        if file.data_start().saturating_add(file.compressed_size()) > input_len {
+            return Err(super::Error::Other(
+                format!("data of member {} extends past the end of the file", file.name())
+            ).into());
+        }
+        Ok(())
+    }
+
     pub fn boxed_zip(config: &Rc<config::Config>) -> Box<dyn super::Processor> {
         Self::boxed(config, "zip")
     }
@@ -111,6 +122,7 @@ impl super::Processor for Zip {
 
             for i in 0..input.len() {
                 let file = input.by_index(i)?;
+                Self::check_member_data(&file, io.input_metadata.len())?;
                 if let (Some(epoch), Ok(mtime)) = (self.unix_epoch, file.last_modified().to_time()) {
                     have_mod |= mtime > epoch;
                 }
@@ -136,6 +148,7 @@ impl super::Processor for Zip {
 
         for i in 0..input.len() {
             let file = input.by_index(i)?;
+            Self::check_member_data(&file, io.input_metadata.len())?;
             output.raw_copy_file(file)?;
         }
 
